@@ -250,7 +250,8 @@ def make_cases(ctx):
                 site="dc", cls=what, ee=ee, dc=dc)
     for what in ("honest", "wrong_fp", "no_chain", "psk_with_checker",
                  "honest_chain2", "pinned_cert_not_first",
-                 "pinned_cert_not_first_ed"):
+                 "pinned_cert_not_first_ed", "wrong_fp_srp_cert",
+                 "honest_srp_cert"):
         for ver in ((3, 3), (3, 4), (3, 1)):
             yield "checker-%s-%d" % (what, ver[1]), dict(
                 site="checker", cls=what, ver=ver)
@@ -900,13 +901,19 @@ def run_checker(ctx, cid, P):
     cls = P["cls"]
     chain, key_ = creds.server("rsa")
     fp = chain.getFingerprint()
-    if cls == "wrong_fp":
+    if cls in ("wrong_fp", "wrong_fp_srp_cert"):
         fp = "00" * (len(fp) // 2)
     chk = Checker(x509Fingerprint=fp)
     kind = "cert"
     if cls == "no_chain":
         kind = "anon"
         ver = (3, 3)
+    if cls in ("wrong_fp_srp_cert", "honest_srp_cert"):
+        # the SRP client entry point takes a checker too (SRP_SHA_RSA
+        # suites show the server's certificate)
+        if ver == (3, 4):
+            return
+        kind = "srp_cert"
     cs = ver_settings(ver)
     ss = ver_settings(ver)
     from tlslite.sessioncache import SessionCache
@@ -947,7 +954,7 @@ def run_checker(ctx, cid, P):
     ctx.ev()
     key = {"site": "checker", "class": cls, "ver": pair.VNAME[ver]}
     W = {"case": cid, "outcome": [outcome(tc), outcome(ts)]}
-    if cls in ("honest", "honest_chain2"):
+    if cls in ("honest", "honest_chain2", "honest_srp_cert"):
         if tc.status != "done":
             ctx.violation(dict(key, clause="honest_rejected"), W, repr(tc.exc))
         else:
